@@ -1,35 +1,33 @@
 import Model.Wire
 import Model.Ecdh
 import Model.Curve
+import Model.KeysWire
 /-!
 # line-protocol handler for `Model.Ecdh`: a whole history of calls on one `ECDH` object per line
 
 ```
 ecdh <curves> <op> <op> …
-<curves> = p,a,b,gx,gy,n;p,a,b,gx,gy,n;…          (the `Curve` objects in play; identity = index)
+<curves> = <curve>;<curve>;…        (the `Curve` objects in play; identity = index)
+<curve>  = a name of the generated curve table (the module-level object of ecdsa.curves)
+         | toy:p:a:b:gx:gy:n:h      (a user-built Curve object)
 <op>     = init:<c|->:<sk|->:<vk|->   (first token; sk = c,d,<pt>   vk = c,<pt>   <pt> = x,y,<order|->,<generator 0|1>)
          | setcurve:<c|->  | gen:<d>  | loadpriv:<sk> | getpub | loadpub:<vk> | secret | secretbytes
-         | loadprivbytes:<hex>:<c|->:<oracle> | loadprivder:<hex>:<oracle> | loadprivpem:…   oracle = ok,<sk> | err,<Name> | na
-         | loadpubbytes:<hex>:<c|->:<oracle>  | loadpubder:<hex>:<oracle>  | loadpubpem:…    oracle = ok,<vk> | err,<Name> | na
-           (<c> = the object's curve at the time of the call = the curve argument of from_string)
+         | loadprivbytes:<hex> | loadprivder:<hex> | loadprivpem:<hex>
+         | loadpubbytes:<hex>  | loadpubder:<hex>  | loadpubpem:<hex>
 ```
 Answer: `ok` followed by one token per call: `-` (None), `vk:c:x:y`, an integer, `x<hex>`, `!<ExceptionName>`.
 
-The key constructors are parameters of the model; until `Model/Keys.lean` is linked the harness supplies
-their outcome (what the real constructor returned on these bytes) as a finite table (`oracle`).  The
-point arithmetic is `Model/Curve.lean` (through the generated kernels).
+Nothing computed by the real code flows into the answer: the key constructors are `Model/Keys.lean`
+(`SK.fromString/fromDer/fromPem`, `VK.fromString/fromDer/fromPem`, `SK.fromSecretExponent`) with all their
+externals from the models (`KeysWire.modelExt`: subgroup test and d•G through `Model/Curve.lean`, square roots through
+`Model/NumberTheory.lean`, CPython's base64), the point arithmetic is `Model/Curve.lean` (through the generated
+kernels), `gen:<d>` carries what the entropy source delivered (the scalar `randrange` returned).  A key decoded from
+DER/PEM carries the module-level curve of its OID (`find_curve`); it is located in `<curves>` by name.
 -/
 namespace EcdhWire
 open Wire Ecdh
 
-structure CParams where
-  p : Int
-  a : Int
-  b : Int
-  gx : Int
-  gy : Int
-  n : Int
-deriving Repr, Inhabited
+abbrev CParams := Keys.Curve
 
 /-- points are the point values of `Model/Curve.lean` (a `PointJacobi` carries its `CurveFp`, order and
 generator flag); `*`, `== INFINITY`, `.x()` are that model's functions on a fresh table state -/
@@ -45,59 +43,45 @@ def wx : WPt → Res Int
 abbrev VK := VKey Nat WPt
 abbrev SK := SKey Nat WPt
 
-/-- outcomes of the key constructors on the byte strings of this history, as observed by the harness -/
-structure Table where
-  sk : List (String × Option Nat × Bytes × Res SK)
-  vk : List (String × Option Nat × Bytes × Res VK)
-
-def lookup {α} (t : List (String × Option Nat × Bytes × Res α)) (kind : String) (c : Option Nat) (b : Bytes) : Res α :=
-  match t.find? (fun e => e.1 = kind ∧ e.2.1 = c ∧ e.2.2.1 = b) with
-  | some e => e.2.2.2
-  | none => .error .other
-
 def fpOf (cp : CParams) : Curve.CurveFp := { p := cp.p, a := cp.a, b := cp.b, h := none }
 
 /-- `PointJacobi(curve.curve, x, y, 1, order, generator)` -/
 def mkPt (cs : Array CParams) (c : Nat) (x y : Int) (order : Option Int) (gen : Bool) : WPt :=
   .jac { curve := fpOf cs[c]!, x := x, y := y, z := 1, order := order, generator := gen }
 
-/-- `SigningKey.from_secret_exponent` at the value level (used by `generate`) -/
-def fromSecexp (cs : Array CParams) (c : Nat) (d : Int) : Res SK :=
-  let cp := cs[c]!
-  if ¬ (1 ≤ d ∧ d < cp.n) then .error .malformedPoint
-  else
-    -- pubkey_point = curve.generator * secexp; if hasattr(pubkey_point, "scale"): pubkey_point.scale()
-    match wmul (mkPt cs c cp.gx cp.gy (some cp.n) true) d with
-    | .error e => .error e
-    | .ok (.jac R) =>
-      match Curve.pjScale R with
-      | .error e => .error e
-      | .ok S => .ok { curve := c, d := d, vk := { curve := c, point := .jac S } }
-    | .ok _ => .error .other   -- d*G = INFINITY for 1 ≤ d < n: not on a curve whose generator has order n
+/-- the index of the module-level curve `c` (what `find_curve` returns) among the curves of this history -/
+def indexOfCurve (cs : Array CParams) (c : Keys.Curve) : Option Nat :=
+  cs.toList.findIdx? (fun r => r.name = c.name ∧ r.name ≠ "toy")
 
-def env (cs : Array CParams) (t : Table) : Env Nat WPt Int where
-  fieldP c := (cs[c]!).p.toNat
+/-- a key of `Model/Keys.lean` as the ECDH model sees it: the `Curve` object is number `c` of the history, the point
+the loaders build is `PointJacobi(curve.curve, x, y, 1, order)` on the key's own curve -/
+def ofKeysVK (c : Nat) (k : Keys.VK) : VK :=
+  { curve := c, point := .jac { curve := fpOf k.curve, x := k.x, y := k.y, z := 1, order := some k.curve.n, generator := false } }
+
+def ofKeysSK (c : Nat) (k : Keys.SK) : SK :=
+  { curve := c, d := k.d, vk := ofKeysVK c k.vk }
+
+/-- the curve object of a key decoded from DER/PEM, located in the history's curve list -/
+def locate {α β} (cs : Array CParams) (r : Res α) (crv : α → Keys.Curve) (f : Nat → α → β) : Res β :=
+  match r with
+  | .error e => .error e
+  | .ok k => match indexOfCurve cs (crv k) with
+    | some i => .ok (f i k)
+    | none => .error .other
+
+def env (cs : Array CParams) : Env Nat WPt Int where
+  fieldP c := (cs[c]!).p
   mul := wmul
   isInf := Curve.ptIsInf
   xOf := wx
-  generate c d := fromSecexp cs c d
-  skFromString c b := lookup t.sk "str" (some c) b
-  skFromDer b := lookup t.sk "der" none b
-  skFromPem b := lookup t.sk "pem" none b
-  vkFromString c b := lookup t.vk "str" (some c) b
-  vkFromDer b := lookup t.vk "der" none b
-  vkFromPem b := lookup t.vk "pem" none b
-
-def errOfName (s : String) : PyErr :=
-  ([PyErr.unexpectedDER, .malformedPoint, .malformedSignature, .unknownCurve, .badSignature, .badDigest,
-    .rsZero, .invalidCurve, .invalidSharedSecret, .noKey, .noCurve, .squareRoot, .jacobiError, .indexError,
-    .typeError, .valueError, .assertionError, .zeroDivision, .binasciiError, .runtimeError, .overflowError,
-    .attributeError].find? (·.name = s)).getD .other
-
-def parseCurve (s : String) : Option CParams :=
-  match (s.splitOn ",").mapM (·.toInt?) with
-  | some [p, a, b, gx, gy, n] => some ⟨p, a, b, gx, gy, n⟩
-  | _ => none
+  generate c d := (Keys.SK.fromSecretExponent KeysWire.modelExt cs[c]! d).map (ofKeysSK c)
+  skFromString c b := (Keys.SK.fromString KeysWire.modelExt cs[c]! b).map (ofKeysSK c)
+  skFromDer b := locate cs (Keys.SK.fromDer KeysWire.modelExt b) (·.curve) ofKeysSK
+  skFromPem b := locate cs (Keys.SK.fromPem KeysWire.modelExt b) (·.curve) ofKeysSK
+  vkFromString c b :=
+    if c < cs.size then (Keys.VK.fromString KeysWire.modelExt cs[c]! b true).map (ofKeysVK c) else .error .other
+  vkFromDer b := locate cs (Keys.VK.fromDer KeysWire.modelExt b) (·.curve) ofKeysVK
+  vkFromPem b := locate cs (Keys.VK.fromPem KeysWire.modelExt b) (·.curve) ofKeysVK
 
 def parseOptNat (s : String) : Option (Option Nat) :=
   if s = "-" then some none else s.toNat?.map some
@@ -120,40 +104,23 @@ def parseSK (cs : Array CParams) (f : List String) : Option SK :=
     some { curve := vk.curve, d := d, vk := vk }
   | _ => none
 
-def parseOracle {α} (pk : List String → Option α) (s : String) : Option (Res α) :=
-  match s.splitOn "," with
-  | "ok" :: rest => (pk rest).map .ok
-  | ["err", name] => some (.error (errOfName name))
-  | ["na"] => some (.error .other)
-  | _ => none
-
-/-- one token → (operation, table entries) -/
-def parseOp (cs : Array CParams) (tok : String) : Option (Op Nat WPt Int × Table) :=
-  let e : Table := ⟨[], []⟩
+def parseOp (cs : Array CParams) (tok : String) : Option (Op Nat WPt Int) :=
   match tok.splitOn ":" with
   | ["setcurve", c] => do
     let c ← parseOptNat c
-    if c.all (· < cs.size) then some (.setCurve c, e) else none
-  | ["gen", d] => do let d ← d.toInt?; some (.genPriv d, e)
-  | ["loadpriv", sk] => do let sk ← parseSK cs (sk.splitOn ","); some (.loadPriv sk, e)
-  | ["getpub"] => some (.getPub, e)
-  | ["loadpub", vk] => do let vk ← parseVK cs (vk.splitOn ","); some (.loadPub vk, e)
-  | ["secret"] => some (.secret, e)
-  | ["secretbytes"] => some (.secretBytes, e)
-  | ["loadprivbytes", b, c, o] => do
-    let b ← parseBytes b; let c ← parseOptNat c; let r ← parseOracle (parseSK cs) o
-    some (.loadPrivBytes b, ⟨[("str", c, b, r)], []⟩)
-  | ["loadprivder", b, o] => do
-    let b ← parseBytes b; let r ← parseOracle (parseSK cs) o; some (.loadPrivDer b, ⟨[("der", none, b, r)], []⟩)
-  | ["loadprivpem", b, o] => do
-    let b ← parseBytes b; let r ← parseOracle (parseSK cs) o; some (.loadPrivPem b, ⟨[("pem", none, b, r)], []⟩)
-  | ["loadpubbytes", b, c, o] => do
-    let b ← parseBytes b; let c ← parseOptNat c; let r ← parseOracle (parseVK cs) o
-    some (.loadPubBytes b, ⟨[], [("str", c, b, r)]⟩)
-  | ["loadpubder", b, o] => do
-    let b ← parseBytes b; let r ← parseOracle (parseVK cs) o; some (.loadPubDer b, ⟨[], [("der", none, b, r)]⟩)
-  | ["loadpubpem", b, o] => do
-    let b ← parseBytes b; let r ← parseOracle (parseVK cs) o; some (.loadPubPem b, ⟨[], [("pem", none, b, r)]⟩)
+    if c.all (· < cs.size) then some (.setCurve c) else none
+  | ["gen", d] => do let d ← d.toInt?; some (.genPriv d)
+  | ["loadpriv", sk] => do let sk ← parseSK cs (sk.splitOn ","); some (.loadPriv sk)
+  | ["getpub"] => some .getPub
+  | ["loadpub", vk] => do let vk ← parseVK cs (vk.splitOn ","); some (.loadPub vk)
+  | ["secret"] => some .secret
+  | ["secretbytes"] => some .secretBytes
+  | ["loadprivbytes", b] => do let b ← parseBytes b; some (.loadPrivBytes b)
+  | ["loadprivder", b] => do let b ← parseBytes b; some (.loadPrivDer b)
+  | ["loadprivpem", b] => do let b ← parseBytes b; some (.loadPrivPem b)
+  | ["loadpubbytes", b] => do let b ← parseBytes b; some (.loadPubBytes b)
+  | ["loadpubder", b] => do let b ← parseBytes b; some (.loadPubDer b)
+  | ["loadpubpem", b] => do let b ← parseBytes b; some (.loadPubPem b)
   | _ => none
 
 def showRes : Res Int → String
@@ -184,16 +151,14 @@ def parseInit (cs : Array CParams) (tok : String) : Option (Option Nat × Option
 def handle (toks : List String) : Option String :=
   match toks with
   | "ecdh" :: curves :: initTok :: ops => do
-    let cs ← (curves.splitOn ";").mapM parseCurve
+    let cs ← (curves.splitOn ";").mapM KeysWire.parseCurve
     let cs := cs.toArray
     let (c, sk, vk) ← parseInit cs initTok
     let parsed ← ops.mapM (parseOp cs)
-    let table : Table := ⟨parsed.flatMap (·.2.sk), parsed.flatMap (·.2.vk)⟩
-    -- the table is keyed by (constructor, curve argument, bytes): a function, as the constructors are
-    let e := env cs table
+    let e := env cs
     match init c sk vk with
     | .error err => some ("ok !" ++ err.name)
-    | .ok s0 => some ("ok " ++ " ".intercalate ("init" :: (outputs e s0 (parsed.map (·.1))).map showOut))
+    | .ok s0 => some ("ok " ++ " ".intercalate ("init" :: (outputs e s0 parsed).map showOut))
   | _ => none
 
 end EcdhWire
